@@ -306,72 +306,6 @@ func runRuby(r *hx.Run, rnd *hx.Rand, cfg hx.Config) {
 	}
 }
 
-// runOsOwned: files the rpm database lists as installed by an rpm are not reported by the
-// language scanners; their unowned neighbours are.
-func runOsOwned(r *hx.Run, rnd *hx.Rand, cfg hx.Config) error {
-	for i := 0; i < cfg.N(12, 200) && !r.Stop(); i++ {
-		owner := rpmPkg{name: "python3-owned", version: "1.0", release: "1.el9", arch: "noarch", srpm: "python-owned-1.0-1.el9.src.rpm"}
-		type cand struct {
-			path  string
-			data  []byte
-			owned bool
-			scan  indexer.PackageScanner
-		}
-		site := rnd.Pick("opt/app/lib/python3.9/site-packages", "usr/local/lib/python3.9/site-packages")
-		cands := []cand{
-			{site + "/owned-2.0.egg-info/PKG-INFO", []byte("Metadata-Version: 1.1\nName: owned\nVersion: 2.0\n"), true, &pythonScanner},
-			{site + "/free-2.1.egg-info/PKG-INFO", []byte("Metadata-Version: 1.1\nName: free\nVersion: 2.1\n"), false, &pythonScanner},
-			{"usr/lib/node_modules/owned/package.json", renderPackageJSON(rnd, "owned", "1.0.0"), true, &nodejs.Scanner{}},
-			{"usr/lib/node_modules/free/package.json", renderPackageJSON(rnd, "free", "1.0.1"), false, &nodejs.Scanner{}},
-			{"usr/share/gems/specifications/owned-1.0.0.gemspec", renderGemspec(rnd, "owned", "1.0.0"), true, &ruby.Scanner{}},
-			{"usr/share/gems/specifications/free-1.0.1.gemspec", renderGemspec(rnd, "free", "1.0.1"), false, &ruby.Scanner{}},
-		}
-		var ents []ent
-		dirIdx := map[string]int32{}
-		for _, c := range cands {
-			ents = append(ents, ent{path: c.path, data: c.data})
-			if c.owned {
-				j := strings.LastIndexByte(c.path, '/')
-				d, b := "/"+c.path[:j+1], c.path[j+1:]
-				if _, ok := dirIdx[d]; !ok {
-					dirIdx[d] = int32(len(owner.dirs))
-					owner.dirs = append(owner.dirs, d)
-				}
-				owner.bases = append(owner.bases, b)
-				owner.dirIdx = append(owner.dirIdx, dirIdx[d])
-			}
-		}
-		blobs := [][]byte{owner.blob(), (rpmPkg{name: "bash", version: "5", release: "1", arch: "x86_64", srpm: "bash-5-1.src.rpm"}).blob()}
-		kind := rnd.Pick("sqlite", "ndb")
-		if kind == "sqlite" {
-			b, err := rpmSqlite(cfg.OutDir, blobs)
-			if err != nil {
-				return err
-			}
-			ents = append(ents, ent{path: "var/lib/rpm/rpmdb.sqlite", data: b})
-		} else {
-			ents = append(ents, ent{path: "var/lib/rpm/Packages.db", data: rpmNdb(blobs)})
-		}
-		r.Case(fmt.Sprintf("os-owned %d %s", i, kind), true)
-		r.Count("osowned:container:" + kind)
-		for _, c := range cands {
-			got, _, ok := scanLang(c.scan, ents)
-			_, rep := got[c.path]
-			switch {
-			case !ok:
-				r.Fail("", fmt.Sprintf("%s scanner fails on a layer with an rpm database (%s)", c.scan.Name(), kind))
-			case c.owned && rep:
-				r.Fail("", fmt.Sprintf("%s: %s is listed in the rpm database (%s) as installed by python3-owned, but is reported as a package", c.scan.Name(), c.path, kind))
-			case !c.owned && !rep:
-				r.Fail("", fmt.Sprintf("%s: %s is not owned by any rpm, but is not reported (rpm database %s in the layer)", c.scan.Name(), c.path, kind))
-			default:
-				r.Count("osowned:oracle:ok")
-			}
-		}
-	}
-	return nil
-}
-
 // ---- java: jars carrying Maven's pom.properties ----
 
 func renderJar(r *hx.Rand, group, artifact, version string) []byte {
